@@ -20,6 +20,8 @@ RULE = (
     "DVC repository), and a pool of 2-4 materialised trees/files drawn per history (with modest probability a file just over "
     "1 MiB whose first 1 MiB read chunk is binary and the rest CRLF text, or the opposite mix; nesting, duplicate contents, empty files, "
     "odd/non-ASCII names, CRLF text). Rules (<= 12 per history): stage+transfer (shallow or not), "
+    "build without transfer (stage_only), rewrite of a pool file with another pool file's content under a "
+    "harness clock step (equal contents at several paths; hard-linked files are replaced, not written through), "
     "build(upload=True)+transfer, direct add under the id an honest caller computes (optionally hard-linked), "
     "store->store transfer of a drawn id subset (shallow/expanded, hardlink), index build->md5->save of a "
     "wrapped tree (one .dir object per directory level), migrate (prepare+migrate: D->L, D->G, L->X, G->X), "
@@ -113,7 +115,7 @@ class C01Machine(TraceMachine):
         self.state = None
         self._make_stores()
         self.pool = []          # [(path, isdir, flat {rel: bytes} | bytes)]
-        self.files = []         # [(path, bytes)] every regular file of the pool
+        self.files = []         # [[path, bytes, pool index, relpath | None]] every regular file of the pool
         self.file_bytes = set()
         self.ids = [set() for _ in STORES]
         self.changes = [0 for _ in STORES]
@@ -152,7 +154,7 @@ class C01Machine(TraceMachine):
                 flat = gen.materialise(it["t"], p)
                 self.pool.append((p, True, flat))
                 for rel in sorted(flat):
-                    self.files.append((os.path.join(p, *rel.split("/")), flat[rel]))
+                    self.files.append([os.path.join(p, *rel.split("/")), flat[rel], i, rel])
                 self.labels.update("pool:" + x for x in gen.tree_traits(it["t"]))
                 # the md5 and md5-dos2unix listings differ only when a file is CRLF text
                 for algo in ("md5", "md5-dos2unix"):
@@ -168,19 +170,88 @@ class C01Machine(TraceMachine):
                     data = gen.content_bytes(it["f"])
                 gen.write_file(p, data)
                 self.pool.append((p, False, data))
-                self.files.append((p, data))
-        self.file_bytes = {b for _, b in self.files}
+                self.files.append([p, data, i, None])
+        self.file_bytes = {f[1] for f in self.files}
 
     # ---- rules ---------------------------------------------------------------------------
-    @rule(store=st.integers(0, 2), item=st.integers(0, 7), shallow=st.booleans())
+    @rule(store=st.integers(0, 2), item=st.one_of(st.just(-1), st.integers(0, 7), st.integers(0, 7)),
+          shallow=st.booleans())
     @traced
     def stage_transfer(self, store, item, shallow):
+        """build + transfer of one pool item (item -1 = of every pool item in turn, as a commit of the workspace)."""
         if not self.pool:
             return
         odb = self.odbs[store]
-        path = self.pool[item % len(self.pool)][0]
-        ops.stage_transfer(odb, path, name=odb.hash_name, shallow=shallow)
-        self.labels.add("stage_transfer" + ("-shallow" if shallow else ""))
+        todo = self.pool if item < 0 else [self.pool[item % len(self.pool)]]
+        for entry in todo:
+            ops.stage_transfer(odb, entry[0], name=odb.hash_name, shallow=shallow)
+        self.labels.add("stage_transfer" + ("-shallow" if shallow else "") + ("-all" if item < 0 else ""))
+
+    @rule(store=st.integers(0, 2), item=st.one_of(st.just(-1), st.just(-1), st.integers(0, 7)))
+    @traced
+    def stage_only(self, store, item):
+        """build() without the transfer (what a status-style caller does; item -1 = every pool item, as a status
+        over the whole workspace): nothing may reach the store later through what this staging remembered."""
+        from dvc_objects.fs.local import LocalFileSystem
+
+        from dvc_data.hashfile.build import build
+
+        if not self.pool:
+            return
+        odb = self.odbs[store]
+        todo = self.pool if item < 0 else [self.pool[item % len(self.pool)]]
+        for entry in todo:
+            build(odb, entry[0], LocalFileSystem(), odb.hash_name)
+        self.labels.add("stage_only" + ("-all" if item < 0 else ""))
+
+    @rule(fidx=st.integers(0, 40), src=st.integers(0, 40),
+          backup=st.one_of(st.none(), st.integers(0, 40), st.integers(0, 40), st.integers(0, 40)),
+          step=st.sampled_from([1_000, 1_000_000, 2_000_000_000]))
+    @traced
+    def rewrite_item(self, fidx, src, step, backup=None):
+        """One user edit: file `fidx` takes the current content of file `src`; with `backup` its previous content
+        is also written to another pool file (so the old content lives on at a different path)."""
+        if not self.files:
+            return
+        old = self.files[fidx % len(self.files)][1]
+        self._rewrite(fidx % len(self.files), self.files[src % len(self.files)][1], step)
+        if backup is not None and backup % len(self.files) != fidx % len(self.files):
+            self._rewrite(backup % len(self.files), old, step)
+            self.labels.add("rewrite-with-backup")
+
+    def _rewrite(self, idx, new, step):
+        """The user rewrites one pool file with the current content of another pool file (so equal contents live at
+        several paths), under a harness clock step so that the (inode, mtime, size) token really changes.  A file
+        that is hard-linked into a store is replaced (new inode), never written through."""
+        f = self.files[idx]
+        if new == f[1]:
+            return
+        path = f[0]
+        st0 = os.stat(path)
+        if st0.st_nlink > 1:
+            os.unlink(path)
+        else:
+            os.chmod(path, 0o644)
+        with open(path, "wb") as fobj:
+            fobj.write(new)
+        os.utime(path, ns=(st0.st_atime_ns, st0.st_mtime_ns + step))
+        st1 = os.stat(path)
+        if (st1.st_ino, st1.st_mtime, st1.st_size) == (st0.st_ino, st0.st_mtime, st0.st_size):
+            os.utime(path, ns=(st0.st_atime_ns, st0.st_mtime_ns + 1_000_000_000))
+        f[1] = new
+        pi, rel = f[2], f[3]
+        p, isdir, body = self.pool[pi]
+        if isdir:
+            body[rel] = new
+            for algo in ("md5", "md5-dos2unix"):
+                lb = ref.ref_tree_bytes(ref.tree_manifest(body, algo), "md5")
+                if lb not in self.listings:
+                    self.listings.append(lb)
+        else:
+            self.pool[pi] = (p, False, new)
+        self.labels.add("rewrite_item")
+        if sum(1 for g in self.files if g[1] == new) >= 2:
+            self.labels.add("content-at>=2-paths")
 
     @rule(store=st.integers(0, 1), item=st.integers(0, 7))
     @traced
@@ -206,7 +277,7 @@ class C01Machine(TraceMachine):
         if not self.files:
             return
         odb = self.odbs[store]
-        path, data = self.files[fidx % len(self.files)]
+        path, data = self.files[fidx % len(self.files)][:2]
         oid = _href(data, STORES[store][2])  # what an honest caller computes from that same path
         odb.add(path, LocalFileSystem(), oid, hardlink=hardlink)
         self.labels.add("add_direct" + ("-hardlink" if hardlink else ""))
@@ -287,7 +358,7 @@ class C01Machine(TraceMachine):
         """Plant what an add killed inside the reflink probe (open(final, O_CREAT|O_TRUNC)) leaves behind: an
         empty - or partially written - unprotected file under the final path of a pool object that the store
         does not hold yet.  Local-class stores only."""
-        cands = list(self.files)
+        cands = [(f[0], f[1]) for f in self.files]
         if store != 3:
             cands += [(None, b) for b in self.listings]
         if not cands:
@@ -431,7 +502,7 @@ def _audit_foreign(path, algo):
 
 
 def run(ctx):
-    run_trace_machine(ctx, C01Machine, ctx.n(quick=80, thorough=1500), 12)
+    run_trace_machine(ctx, C01Machine, ctx.n(quick=150, thorough=1500), 12)
 
 
 def replay(case, ctx):
